@@ -33,6 +33,9 @@ HAND = [
     # both orders of the two-clause timeunits declaration, in a module and at compilation-unit level
     ("sv", "timeprecision 1ps; timeunit 1ns;\nmodule m; timeprecision 1ps;\n timeunit 1ns; wire w; endmodule\n"),
     ("sv", "timeunit 1ns; timeprecision 1ps;\npackage p; timeunit 1ns / 1ps; endpackage\ninterface i; timeunit 1ns;\n timeprecision 1ps; endinterface\n"),
+    # formal arguments with an empty default (the directive is kept and parsed again by the main parser)
+    ("sv", "`define M(a=, b) a b\n`define N(x, y = ) x y\n`define O(p =\t, q=) p q\nmodule m; wire `N(w1,) ; endmodule\n"),
+    ("sv", "`define E()\n`define F( )  body\n`define G(a,\n  b) a b\nmodule m; endmodule\n"),
     # a byte order mark in front of the text: whether such text is accepted or not, an accepted tree covers it from offset 0
     ("sv", "\ufeffmodule m; endmodule\n"), ("lib", "\ufefflibrary l a.v;\n"), ("sv", "\ufeff// c\n`define W 1\nmodule m; wire [`W:0] w; endmodule\n"),
     # unquoted paths of a library map followed by a line break, a tab, CRLF instead of a blank
